@@ -473,8 +473,8 @@ func execHard(op string, a []string) (string, bool) {
 		for i, s := range subs {
 			lines[i] = "C16 " + strings.Join(strings.Split(s, "/"), " ")
 		}
-		const workers = 8
-		const rounds = 3
+		const workers = 16
+		const rounds = 8
 		res := make([][]string, rounds)
 		for r := range res {
 			res[r] = make([]string, len(lines))
@@ -794,13 +794,29 @@ func genHard(g *core.Gen) {
 	for _, sl := range []int{15, 16, 17, 63, 64, 65} {
 		gc(g, "drv-seedlen", true, "C16 drv mainnet "+hx(r.Bytes(sl))+" 2147483647,2147483648")
 	}
+	// strings of exactly 66 / 130 characters are first tried as hex public keys: segwit and Base58Check strings of
+	// those lengths must still take their own branch (or fail in it)
+	for _, hrp := range []string{"bc", "tb", "sb", "vn"} {
+		for _, l := range []int{34, 35, 36} {
+			s := segwitString(r, hrp, 1, r.Bytes(l), true)
+			gc(g, "dec-len66", len(s) == 66, "C16 dec "+ns[r.Intn(len(ns))].name+" "+hx(s))
+		}
+	}
+	for tries, found := 0, 0; tries < 400 && found < 6; tries++ {
+		n := ns[r.Intn(len(ns))]
+		s := []byte(base58CheckRaw(append([]byte{n.p.PubKeyHashAddrID}, r.Bytes(42+r.Intn(4))...)))
+		if len(s) == 66 {
+			found++
+			gc(g, "dec-len66", true, "C16 dec "+n.name+" "+hx(s))
+		}
+	}
 	// configuration change: the same string before and after its network is registered
 	for k := 0; k < g.N(6, 40); k++ {
 		hrp := "z" + strings.ToLower(strconv.FormatUint(r.U64()&0xffffffff, 36))
 		hrp = strings.ReplaceAll(hrp, "1", "x")
 		gc(g, "dynreg", true, "C16 dynreg "+hx([]byte(hrp))+" "+hx(r.Bytes(32)))
 	}
-	// concurrency: 8 goroutines, 3 rounds, over samples of everything generated so far
+	// concurrency: 16 goroutines, 8 rounds with shifted start offsets, over samples of everything generated so far
 	var pool2 []string
 	for _, l := range allLines {
 		if len(l) < 1500 && !strings.HasPrefix(l, "C16 dynreg") && !strings.HasPrefix(l, "C16 conc") &&
@@ -808,10 +824,21 @@ func genHard(g *core.Gen) {
 			pool2 = append(pool2, l)
 		}
 	}
-	for k := 0; k < g.N(8, 40); k++ {
+	var poolDec []string // string decoders share the most helper code: half of the conc cases use only them
+	for _, l := range pool2 {
+		if strings.HasPrefix(l, "C16 dec ") || strings.HasPrefix(l, "C16 bdec") || strings.HasPrefix(l, "C16 enc") ||
+			strings.HasPrefix(l, "C16 chkd") || strings.HasPrefix(l, "C16 wifd") || strings.HasPrefix(l, "C16 xkd") {
+			poolDec = append(poolDec, l)
+		}
+	}
+	for k := 0; k < g.N(12, 60); k++ {
 		var subs []string
-		for i := 0; i < 48; i++ {
-			subs = append(subs, slashLine(pool2[r.Intn(len(pool2))]))
+		src := pool2
+		if k%2 == 1 {
+			src = poolDec
+		}
+		for i := 0; i < 96; i++ {
+			subs = append(subs, slashLine(src[r.Intn(len(src))]))
 		}
 		g.Case("conc", true, "C16 conc "+strings.Join(subs, ";"))
 		allLines = append(allLines, "C16 conc "+strings.Join(subs, ";"))
